@@ -461,8 +461,15 @@ class ExprMixin(object):
                 return Unknown('cyclic-class-attr')
             self.global_busy.add(key)
             try:
+                # names of the class body: the functions defined in it are plain
+                # functions there (a dispatch table of methods, say)
+                ns = {}
+                for mname, fi in owner.methods.items():
+                    ns[mname] = FuncRef(fi, None)
+                for cname, ci in owner.nested.items():
+                    ns[cname] = ClsRef(ci)
                 v = self.eval_detached(owner.module, expr,
-                                       'class attr %s.%s' % (owner.qualname, name))
+                                       'class attr %s.%s' % (owner.qualname, name), ns)
             finally:
                 self.global_busy.discard(key)
         self.global_cache[key] = v
